@@ -53,6 +53,11 @@ class SpecTask(Task):
         if rec:
             with open(f"{rec}.{os.getpid()}", "a") as fh:
                 fh.write(repr(x) + "\n")
+        where = self.data.get("record_where")           # where evaluations really run: one line (pid, thread id) per call, one file per process
+        if where:
+            import threading
+            with open(f"{where}.{os.getpid()}", "a") as fh:
+                fh.write(f"{os.getpid()} {threading.get_ident()}\n")
         if self.data.get("delay"):
             import time, zlib
             time.sleep((zlib.crc32(repr(x).encode()) % 7) * self.data["delay"])
@@ -68,6 +73,14 @@ class SpecTask(Task):
             return out
         val = objective_value(self.data["obj"], x)
         return val
+
+
+class SpecTaskB(SpecTask):
+    pass
+
+
+class SpecTaskC(SpecTask):
+    pass
 
 
 def build_vars(vspecs, names=None):
@@ -197,6 +210,9 @@ def run_job(job: dict) -> dict:
             from pyvolutionary import utils as U
             obs["best_trend"] = [float(x) for x in U.best_agent_trend(res)]
             obs["best_positions"] = U.best_agent_position(res)
+            U.agent_trend(res, 0); U.agent_position(res, len(res.evolution[0].agents) - 1, iters=list(range(len(res.evolution))))
+            # the utilities are read-only: the recorded history must be what it was before they were called (same agents, same ORDER)
+            obs["evolution_after_utilities"] = [[(a.position, a.cost, a.fitness) for a in p.agents] for p in res.evolution]
         if job.get("decode"):
             obs["decoded_best"] = repr(task.transform_solution(res.best_solution.position))
     except Exception as e:
